@@ -6,6 +6,7 @@ INVARIANT Blocks
 INVARIANT RoundTrip
 INVARIANT Gate
 INVARIANT Kept
+INVARIANT ThumbKept
 INVARIANT LazyUnobservable
 INVARIANT Untouched
 VIEW View
@@ -17,10 +18,11 @@ CONSTANTS
   Layers = {"d1", "cube"}
   Minors = {2, 5}
   Fmts = {"RGBA8888", "ABGR8888", "RGB888", "BGR888", "RGB565", "I8", "IA88", "A8", "RGB888_BLUESCREEN", "BGR888_BLUESCREEN", "ARGB8888", "BGRA8888", "BGRX8888", "BGR565", "BGRX5551", "BGRA4444", "BGRA5551", "UV88", "UVWQ8888", "UVLX8888"}
-  Lows = {"NONE"}
+  Lows = {"NONE", "IA88"}
   ResKinds = {}
   MaxRes = 0
   Access = FALSE
   Fills = {"l0"}
   History = TRUE
   MaxOps = 2
+  Thumbs = {"t16", "t4", "t2x1"}
